@@ -29,7 +29,7 @@ func main() {
 	w.Meta.Rule = "(i) hook-driven random histories on the real fixedCallFrameStack / autoGrowingCallFrameStack (sizes 1..40, targets around 8-frame boundaries and the capacity, dirty segment pool) and registry (initial 1..40, grow 0..64, max below/at/above the initial size), every returned value and the live cells compared; " +
 		"(ii) NewState option normalisation on boundary values, and NewState() without arguments after setting the package variables lua.CallStackSize / RegistrySize / RegistryGrowStep (the third way of configuring; also part of the Options matrix of (iii) and of the limit configurations of (iv), with limits below and above the built-in defaults); (iii) 12 program templates below every limit under 96 Options x {context, none} vs the reference configuration; " +
 		"(iii') 3 program templates that make a growable registry grow (descents through vararg functions with 1..3 named parameters, 0..6 arguments, tail calls, methods, __call; each descent in a fresh coroutine, alignment swept by 0..10 lifting frames x 0..6 arguments) under registries 128 growing by 1,2,3,7,8,31,32,33,64 vs the fixed reference; (iv) limit programs (recursion in Lua/coroutine/xpcall/metamethod/Go API, unpack/vararg/Go pushes/deep frames, also killing a coroutine.create/resume coroutine: resume false+message, status dead, running thread restored) with the need measured under far limits and N chosen so that need straddles each limit, then an epilogue on the same state. " +
-		"non-trivial = a history that crossed a segment boundary / reached capacity / grew or overflowed the registry; an option set that NewState changed; a non-reference configuration with a non-empty trace; a limit case with need within [limit-2, limit+9]; distinct by Gallina term"
+		"(v) recursion through Go functions (nested pcall, __index, sort comparator, gsub callback) under large CallStackSize: a caught stack overflow at the same depth under every configuration. non-trivial = a history that crossed a segment boundary / reached capacity / grew or overflowed the registry; an option set that NewState changed; a non-reference configuration with a non-empty trace; a limit case with need within [limit-2, limit+9]; distinct by Gallina term"
 	r := lib.NewRand(a.Seed)
 	if a.Replay != "" {
 		replay(w, a.Replay)
@@ -61,6 +61,7 @@ func main() {
 		}
 		if only == "" || only == "limits" {
 			genLimits(w, r.Fork(), a.Tier)
+			genCcalls(w)
 		}
 	}
 	if err := w.Close(); err != nil {
@@ -156,6 +157,10 @@ func replay(w *lib.Writer, path string) {
 		var in TraceIn
 		json.Unmarshal(rp.Input, &in)
 		replayTrace(w, in)
+	case "ccall":
+		var in CcallIn
+		json.Unmarshal(rp.Input, &in)
+		replayCcall(w, in)
 	case "limit":
 		var in LimitIn
 		json.Unmarshal(rp.Input, &in)
